@@ -10,7 +10,7 @@ TRUST = [
 
 CHECKS = {
     "C10": {
-        "test": "TestC10", "level": "exploration", "checks": (2500, 40000), "timeout": (600, 3600),
+        "test": "TestC10", "level": "exploration", "checks": (2500, 40000), "timeout": (600, 3600), "fuzz": [("FuzzC10", "45s")],
         "rule": "exhaustive sweeps of all 2^8/2^16/2^24 raw integer values in both signedness modes (2^32 in the thorough tier) and all 256 YEAR bytes "
                 "through CellBytes vs. the arithmetic two's-complement reading; plus rapid-generated (type, metadata, value, mapper signedness, surrounding bytes) "
                 "cases for 32/64-bit integers (boundaries + uniform), FLOAT/DOUBLE bit patterns (zeros, subnormals, extremes, powers of 2 and 10, uniform finite), "
@@ -19,7 +19,7 @@ CHECKS = {
         "assumptions": TRUST + ["signedness is whatever the caller passes as isUnSignedInt (end-to-end mapper plumbing is covered by C01)"],
     },
     "C11": {
-        "test": "TestC11", "level": "exploration", "checks": (3000, 60000), "timeout": (600, 3600),
+        "test": "TestC11", "level": "exploration", "checks": (3000, 60000), "timeout": (600, 3600), "fuzz": [("FuzzC11", "45s")],
         "rule": "all 1,580 valid (precision, scale) pairs x deterministic digit patterns (all zeros, all nines, single digits at the edges, each 9-digit group "
                 "non-zero / zero / small in turn) x sign, then rapid-generated (p, s, digits, sign, surrounding bytes); encoded by an independent decimal2bin, decoded by "
                 "CellBytes, compared with the canonical text built from the digit string; consumed length must equal decimal_bin_size(p,s). Every case is non-trivial; "
@@ -27,7 +27,7 @@ CHECKS = {
         "assumptions": TRUST + ["negative zero is not representable and is never generated"],
     },
     "C12": {
-        "test": "TestC12", "level": "exploration", "checks": (4000, 60000), "timeout": (600, 3600),
+        "test": "TestC12", "level": "exploration", "checks": (4000, 60000), "timeout": (600, 3600), "fuzz": [("FuzzC12", "45s")],
         "shard_env": [{"TZ": "UTC"}, {"TZ": "Asia/Shanghai"}, {"TZ": "America/New_York"}, {"TZ": "Australia/Lord_Howe"}],
         "rule": "exhaustive sweep of all 2^24 raw values of the 3-byte DATE and TIME encodings (checked when they denote a valid value: month<=12, year<=9999; "
                 "|h|<=838, m,s<=59) vs. text built from the broken-down fields; rapid-generated old DATETIME / TIMESTAMP and TIMESTAMP2 / DATETIME2 / TIME2 values for "
@@ -130,7 +130,7 @@ CHECKS = {
                                 "when the caller cancelled before Stream returned either answer is allowed"],
     },
     "C09": {
-        "test": "TestC09", "level": "exploration", "checks": (2500, 40000), "timeout": (600, 3600),
+        "test": "TestC09", "level": "exploration", "checks": (2500, 40000), "timeout": (600, 3600), "fuzz": [("FuzzC09", "45s")],
         "rule": "rapid-generated (config {checksum, v1/v2 rows, extra-data length, 4/6-byte ids} x table of 1..300 columns over the emitted AND documented-extra type strata with "
                 "their metadata domains x {write, update, delete} x presence bitmaps (full / key-only / random, >= 1 present) x NULL patterns x 0..8 rows), encoded by the independent "
                 "encoder and decoded directly with TableMap / Rows / CellBytes. Oracle: row count, presence bitmaps, per-row NULL bitmaps and image bytes equal the encoder's, and "
@@ -139,7 +139,7 @@ CHECKS = {
         "assumptions": TRUST + ["every used bitmap has >= 1 present column", "the library's BinlogFormat value is constructed from the logical configuration (the format-description decoder is C16's subject)"],
     },
     "C13": {
-        "test": "TestC13", "level": "exploration", "checks": (150, 2000), "timeout": (900, 7200),
+        "test": "TestC13", "level": "exploration", "checks": (150, 2000), "timeout": (900, 7200), "fuzz": [("FuzzC13", "45s")],
         "rule": "(a) CHAR/BINARY: EVERY declared length 0..1023 x actual {0,1,255,256,max}; VARCHAR declared 0..65535 (boundaries + stride 61; every length in the thorough tier) x "
                 "the same actual lengths; blob family length bytes 1..4 x {0,1,255,256,65535,65536,max}; random declared/actual/content for all eight string/binary type codes, "
                 "through CellBytes (verbatim bytes, exact consumption). (b) end to end: tables of 1..10 string columns streamed with column p NULL / empty / absent for EVERY "
@@ -158,7 +158,7 @@ CHECKS = {
         "assumptions": TRUST + ["keys and strings contain no quote characters (the renderer does not escape; stated in the property's quantifier)"],
     },
     "C15": {
-        "test": "TestC15", "level": "exploration", "checks": (600, 8000), "timeout": (600, 5400),
+        "test": "TestC15", "level": "exploration", "checks": (600, 8000), "timeout": (600, 5400), "fuzz": [("FuzzC15", "45s")],
         "rule": "(a) direct: table maps of 1..600 columns over both type strata, db/table names 1..255 bytes, arbitrary flags, every nullability pattern drawn, 4/6-byte ids, 0..3 "
                 "trailing optional-metadata TLVs -> TableMap()/TableID() must equal the schema (types, metadata per the documented byte order, CanBeNull). (b) end to end: an id "
                 "re-announced with other column types, an id re-bound to a different table (inside one transaction or across transactions with DDL in between), a mapper that "
@@ -168,7 +168,7 @@ CHECKS = {
         "assumptions": TRUST + ["when an id is re-announced for the same table, names and signedness are kept identical across the two definitions (the mapper is asked by name)"],
     },
     "C16": {
-        "test": "TestC16", "level": "exploration", "checks": (4000, 100000), "timeout": (600, 3600),
+        "test": "TestC16", "level": "exploration", "checks": (4000, 100000), "timeout": (600, 3600), "fuzz": [("FuzzC16", "45s")],
         "rule": "rapid-generated control events {format description (server version 0..50 bytes, 27..255 arbitrary header sizes, algorithm byte 0/1/255), rotate (name 0..255 bytes, "
                 "position up to 2^63-1), query (db 0..255 bytes, SQL 0..64 KiB, every drawn subset in MySQL's emission order of status variables 0..20 with correctly shaped "
                 "payloads, charset present or not), XID, INTVAR (both ids), RAND} x arbitrary header fields x {MySQL 5.6, MariaDB event flavor}. Oracle: accessor results equal the "
@@ -187,7 +187,7 @@ CHECKS = {
         "assumptions": TRUST + ["packets that pass the gate but carry a broken body are not this property's subject"],
     },
     "C18": {
-        "test": "TestC18", "level": "exploration", "checks": (1500, 40000), "timeout": (600, 3600),
+        "test": "TestC18", "level": "exploration", "checks": (1500, 40000), "timeout": (600, 3600), "fuzz": [("FuzzC18", "45s")],
         "rule": "EXHAUSTIVE: one UUID and a window of 8 sequence numbers: all 256 subsets (built from an independently encoded SID block), all 65,536 ordered pairs for Contains / "
                 "Equal, and every (set, gtid) with the gtid in and around the window for ContainsGTID / AddGTID; then rapid state-machine cases: 1..4 UUIDs (some differing in "
                 "one byte), narrow or wide intervals up to 2^63-1, 1..12 AddGTID steps applied to any retained set. Oracle: a set-of-pairs model (sorted disjoint merged intervals "
@@ -196,7 +196,7 @@ CHECKS = {
         "assumptions": TRUST + ["sets are built through NewMysql56GTIDSetFromSIDBlock / AddGTID, never through the library's text parser (canonical inputs only)"],
     },
     "C19": {
-        "test": "TestC19", "level": "exploration", "checks": (4000, 100000), "timeout": (600, 3600),
+        "test": "TestC19", "level": "exploration", "checks": (4000, 100000), "timeout": (600, 3600), "fuzz": [("FuzzC19", "45s")],
         "rule": "rapid-generated cases: MySQL 5.6 GTIDs (16-byte SIDs incl. all-zero / all-0xFF, sequence 1..2^63-1) and MariaDB GTIDs (domain / server 0..2^32-1, sequence up to "
                 "2^64-1) through String -> ParseGTID and EncodeGTID -> DecodeGTID; 5.6 sets of 0..8 UUIDs through String -> the registered set parser (verif hook) and SIDBlock -> "
                 "NewMysql56GTIDSetFromSIDBlock; MariaDB sets of 1..8 members through String -> the registered parser; GTID events (5.6 and 5.7 layouts, with and without CRC32), "
@@ -228,13 +228,13 @@ MANIFEST_TEXT = {
     "C08": {"technique": "property-based testing with snapshot-vs-later-read and scribbling-handler oracles over buffer-straddling packet sizes and pacings",
             "level_text": "Exploration: deliveries are snapshotted, overwritten in place and re-read after further stream activity, with packet sizes around the driver's buffer size.",
             "level_note": _BASE_NOTE},
-    "C10": {"technique": "exhaustive sweep of 8/16/24-bit (32-bit thorough) domains + property-based testing for 64-bit, floats (parse-back oracle), YEAR/BIT/ENUM/SET",
+    "C10": {"technique": "exhaustive sweep of 8/16/24-bit (32-bit thorough) domains + property-based testing for 64-bit, floats (parse-back oracle), YEAR/BIT/ENUM/SET; coverage-guided fuzzing of the generated part in the thorough tier (rapid.MakeFuzz)",
             "level_text": "Exploration with exhaustive sub-spaces: all raw values of the narrow integer types in both signedness modes are enumerated; wider domains are sampled at boundaries and uniformly.",
             "level_note": _BASE_NOTE},
-    "C11": {"technique": "enumeration of all (precision, scale) pairs x digit patterns + property-based testing, independent decimal2bin vs canonical-text oracle",
+    "C11": {"technique": "enumeration of all (precision, scale) pairs x digit patterns + property-based testing, independent decimal2bin vs canonical-text oracle; coverage-guided fuzzing of the generated part in the thorough tier (rapid.MakeFuzz)",
             "level_text": "Exploration, exhaustive over the 1,580 (p,s) pairs with structured digit patterns, sampled over digit strings.",
             "level_note": _BASE_NOTE},
-    "C12": {"technique": "exhaustive sweep of the 2^24 raw 3-byte DATE/TIME values + property-based testing of the wider encodings under four process time zones",
+    "C12": {"technique": "exhaustive sweep of the 2^24 raw 3-byte DATE/TIME values + property-based testing of the wider encodings under four process time zones; coverage-guided fuzzing of the generated part in the thorough tier (rapid.MakeFuzz)",
             "level_text": "Exploration with exhaustive sub-spaces (all valid raw old DATE / TIME values); fractional encodings and zones are sampled.",
             "level_note": _BASE_NOTE},
     "C04": {"technique": "fault enumeration by property-based generation: (fault kind x fault point x pacing x up to 3 failed attempts) on one streamer, exactly-once-in-order oracle over accepted transactions plus a resume-window oracle on every dump request",
@@ -246,28 +246,28 @@ MANIFEST_TEXT = {
     "C06": {"technique": "fault enumeration over the same scenario space as C05 with an error-reporting decision table as oracle",
             "level_text": "Fault enumeration: for each generated stop scenario the results of Stream and of the first Error() call are compared with the table cause -> allowed results.",
             "level_note": _BASE_NOTE},
-    "C09": {"technique": "property-based testing: independent rows-event encoder vs TableMap/Rows/CellBytes, byte-for-byte image and exact-consumption oracle",
+    "C09": {"technique": "property-based testing: independent rows-event encoder vs TableMap/Rows/CellBytes, byte-for-byte image and exact-consumption oracle; coverage-guided fuzzing of the generated part in the thorough tier (rapid.MakeFuzz)",
             "level_text": "Exploration: thousands of generated rows events over wide tables, all type strata and bitmap shapes are decoded and compared byte for byte with the encoder's images.",
             "level_note": _BASE_NOTE},
-    "C13": {"technique": "enumeration of declared lengths x boundary actual lengths + property-based testing; end-to-end enumeration of NULL/empty/absent in every column position",
+    "C13": {"technique": "enumeration of declared lengths x boundary actual lengths + property-based testing; end-to-end enumeration of NULL/empty/absent in every column position; coverage-guided fuzzing of the generated part in the thorough tier (rapid.MakeFuzz)",
             "level_text": "Exploration with exhaustive sub-spaces (every CHAR length; every VARCHAR length in the thorough tier; every column position x state end to end).",
             "level_note": _BASE_NOTE},
     "C14": {"technique": "property-based testing with an independent binary-JSON writer and a parse-back oracle; coverage-guided fuzzing of the same property in the thorough tier",
             "level_text": "Exploration: generated documents in small and large formats are rendered by the library and parsed back with the documented grammar; equality with the generated tree.",
             "level_note": _BASE_NOTE},
-    "C15": {"technique": "property-based testing: direct table-map decoding vs generated schema; end-to-end attribution scenarios (re-announce, re-bind, count mismatch) vs reference model and mapper call log",
+    "C15": {"technique": "property-based testing: direct table-map decoding vs generated schema; end-to-end attribution scenarios (re-announce, re-bind, count mismatch) vs reference model and mapper call log; coverage-guided fuzzing of the generated part in the thorough tier (rapid.MakeFuzz)",
             "level_text": "Exploration: schemas up to 600 columns decoded directly; attribution checked end to end on hand-shaped and generated interleavings.",
             "level_note": _BASE_NOTE},
-    "C16": {"technique": "property-based testing with field-equality and a metamorphic checksum-on == checksum-off oracle",
+    "C16": {"technique": "property-based testing with field-equality and a metamorphic checksum-on == checksum-off oracle; coverage-guided fuzzing of the generated part in the thorough tier (rapid.MakeFuzz)",
             "level_text": "Exploration: generated control events are decoded with and without CRC32 and under the undefined algorithm; all decodings must agree with each other and with the written fields.",
             "level_note": _BASE_NOTE},
     "C17": {"technique": "property-based testing of the exact validity predicate + fault enumeration (bad packet at every index of generated histories); native go fuzzing in the thorough tier",
             "level_text": "Fault enumeration: the validity predicate is checked against its exact specification on structured and mutated byte strings, and a gate-failing packet is injected at every packet index of generated histories.",
             "level_note": _BASE_NOTE},
-    "C18": {"technique": "exhaustive enumeration of a window of 8 (all subsets, pairs, additions) + rapid state-machine testing against a set-of-pairs model",
+    "C18": {"technique": "exhaustive enumeration of a window of 8 (all subsets, pairs, additions) + rapid state-machine testing against a set-of-pairs model; coverage-guided fuzzing of the generated part in the thorough tier (rapid.MakeFuzz)",
             "level_text": "Exploration with an exhaustive sub-space (window of 8 under one UUID) and model-based stateful testing beyond it.",
             "level_note": _BASE_NOTE},
-    "C19": {"technique": "property-based round-trip testing (text, flavor-tagged, SID block, events from an independent encoder) + stateful model of MariaDB sets",
+    "C19": {"technique": "property-based round-trip testing (text, flavor-tagged, SID block, events from an independent encoder) + stateful model of MariaDB sets; coverage-guided fuzzing of the generated part in the thorough tier (rapid.MakeFuzz)",
             "level_text": "Exploration: round trips over generated identifiers and sets, event decoding against the written identifiers, and a per-domain model with a receiver-unchanged invariant.",
             "level_note": _BASE_NOTE},
     "C20": {"technique": "property-based testing: synthetic hostile and end-to-end transactions, encoding/json parse-back structural oracle",
@@ -317,3 +317,33 @@ RULE_ADDENDA = {
 }
 for _id, _txt in RULE_ADDENDA.items():
     CHECKS[_id]["rule"] += ". Extensions after the sensitivity rounds: " + _txt
+
+# what every end-to-end history may contain since the third sensitivity round
+_E2E3 = ("event headers carry the flag bits a master sets (thread-specific / suppress-use / no-filter / MTS-isolate / ignorable / in-use); v2 rows events carry typed extra row "
+         "info (partition id, source partition id for UPDATE, NDB info); statement texts end in a comment with non-ASCII, non-UTF-8 and control bytes; table maps may carry optional "
+         "metadata (signedness, charsets, column names); DDL may stand inside a transaction")
+ROUND3_ADDENDA = {
+    "C01": _E2E3 + "; scale shapes, one history in ~50 each: a statement split into up to 1100 rows events, a history of > 1500 events, 130-2100 tables with two-table statements, "
+           "rows events with > 1000 rows; one case in twenty runs 2-4 streamers in parallel",
+    "C02": _E2E3 + "; long transactions and long histories as in C01",
+    "C03": _E2E3 + "; scale shapes as in C01 (eight drawn resume points on long histories)",
+    "C04": _E2E3 + "; rows events with > 1000 rows; cause 'cancel while the parser is busy'; handler errors include io.EOF, context.Canceled and wrapped errors",
+    "C05": "stop cause 'cancel while the replica waits for the answer to its first statement' (master answers 0-3 ms later); histories with STOP events and rotations; one long-lived, "
+           "mostly idle attempt (2.6 s) in one normal and one race-detector shard; 2-4 streamers in parallel (more often in the race shards)",
+    "C06": "handler errors include io.EOF, context.Canceled and wrapped errors; histories with STOP events and rotations",
+    "C07": "attempts may run under a context with a (far) deadline: the request must still be the blocking one; a dump requested after the master rejected the checksum statement is a violation",
+    "C08": "long transactions (a statement split into up to 1100 rows events) are retained and re-verified",
+    "C09": "typed extra row info; part: a rows event with > 1000 rows whose conversion meets a cancellation at a parser log call - whatever is delivered must be complete",
+    "C10": "re-binding of a table id to a table whose name differs only in letter case",
+    "C13": "typed extra row info in the end-to-end part",
+    "C14": "wide containers: 90-3000 members taken from a few drawn scalars (opaque temporals and decimals render much longer than they are stored), below 0-2 enclosing containers",
+    "C15": "re-binding to a name that differs only in letter case; one end-to-end history in sixty has 130-2100 tables with two-table statements",
+    "C16": "variable-length status vars reach their real maxima (catalog / time zone 255, invoker 96+255, 16 database names of 192 bytes) one time in six",
+    "C18": "the dense interval window is also placed at 2^24, 2^31, 2^32, 2^53, 2^62 and 2^63-40",
+    "C19": "the generic accessors (domain / server / sequence) of a parsed GTID report the identifier's components",
+    "C20": "synthetic transactions with 33-600 events, 64-300 rows, Query.Database and Query.Charset set, U+FFFD / BOM / C1 / U+2028 in all strings; end-to-end histories with long "
+           "transactions and with a ROWS_QUERY event in front of the table maps (a refusal of the stream is fine; what is delivered must serialise completely); an event that has "
+           "rows must show them whatever its statement text",
+}
+for _id, _txt in ROUND3_ADDENDA.items():
+    CHECKS[_id]["rule"] += ". Third round: " + _txt
